@@ -141,6 +141,19 @@ func init() {
 			}
 			return []Val{{K: VTerm, T: t, Typ: a[0].Typ}}
 		},
+		"reflect.ValueOf": func(x *Exec, fr *Frame, st *State, in ssa.Instruction, a []Val) []Val {
+			// the reflect.Value is represented by the interface value it was made from
+			return []Val{{K: VStruct, Parts: []Val{a[0]}, Typ: in.(ssa.CallInstruction).Common().Signature().Results().At(0).Type()}}
+		},
+		"(reflect.Value).IsNil": func(x *Exec, fr *Frame, st *State, in ssa.Instruction, a []Val) []Val {
+			if a[0].K != VStruct || len(a[0].Parts) != 1 {
+				x.abort("reflect.Value not produced by reflect.ValueOf")
+			}
+			i := a[0].Parts[0].T
+			// IsNil panics on the zero Value (ValueOf(nil interface)) and on non-nillable kinds
+			x.safety(fr, st, in, "reflect-isnil", app(SBool, "(_ is iref)", i))
+			return []Val{{K: VTerm, T: Eq(app(SRef, "pref", i), TNull), Typ: boolT}}
+		},
 		"sync/atomic.AddUint64": func(x *Exec, fr *Frame, st *State, in ssa.Instruction, a []Val) []Val {
 			t := types.Typ[types.Uint64]
 			old := x.load(fr, st, in, a[0], types.NewPointer(t))
